@@ -95,6 +95,7 @@ type gField struct {
 	allTerm bool // every term present (no has bit)
 	fixFreq bool // frequency is the constant 1 (no symbolic number)
 	fixLocs bool // every hit has exactly maxLocs locations
+	shape   bool // geo-shape field: its encoded shape is one more doc-value term of the document
 }
 
 type gCfg struct {
@@ -194,6 +195,7 @@ func vGenBatch(cfg gCfg) ([]index.Document, *sSpec) {
 			accs := make([]acc, len(gf.terms))
 			var totalLen uint64
 			var dvTerms []string
+			shapeTerm := ""
 			for o := 0; o < occ; o++ {
 				tag := fmt.Sprint(d, "_", fi, "_", o)
 				length := g.num("len"+tag, 1<<31)
@@ -250,6 +252,12 @@ func vGenBatch(cfg gCfg) ([]index.Document, *sSpec) {
 					// a field that has tokens has a positive analysed length (validity predicate)
 					vAssume(length >= 1)
 				}
+				if gf.shape {
+					// a geo-shape field always has index tokens (the cells covering the shape): validity predicate.
+					// (Without any token the field has no dictionary, and a merge takes doc values only from
+					// inputs that have a dictionary for the field - the shape would be lost; see DESIGN.)
+					vAssume(len(terms) > 0)
+				}
 				opts := index.IndexField
 				if gf.tv {
 					opts |= index.IncludeTermVectors
@@ -285,7 +293,14 @@ func vGenBatch(cfg gCfg) ([]index.Document, *sSpec) {
 					ap = g.aps("s"+tag, nap)
 					ds.stored = append(ds.stored, sStoredVal{field: gf.name, typ: typ, val: val, ap: ap})
 				}
-				doc.fields = append(doc.fields, vTextField(gf.name, int(length), terms, opts, val, ap, typ))
+				tf := vTextField(gf.name, int(length), terms, opts, val, ap, typ)
+				if gf.shape {
+					sh := []byte{'S', byte('0' + d), byte('0' + o)}
+					doc.fields = append(doc.fields, &vShapeField{tf, sh})
+					shapeTerm = string(sh) // (the shape of the last occurrence wins)
+				} else {
+					doc.fields = append(doc.fields, tf)
+				}
 			}
 			fp := sp.fieldPost(gf.name)
 			for ti, t := range gf.terms {
@@ -297,6 +312,9 @@ func vGenBatch(cfg gCfg) ([]index.Document, *sSpec) {
 				}
 			}
 			if gf.dv {
+				if gf.shape {
+					dvTerms = append(dvTerms, shapeTerm)
+				}
 				ds.dv = append(ds.dv, sDV{field: gf.name, terms: dvTerms})
 			}
 		}
